@@ -132,6 +132,41 @@ pub axiom fn axiom_string_into_pathbuf_obeys()
 pub broadcast axiom fn axiom_string_into_pathbuf(s: String)
     ensures pathbuf_str(#[trigger] <String as vstd::std_specs::convert::IntoSpec<std::path::PathBuf>>::into_spec(s)) == s@;
 
+// ---- worker thread wrappers: opening / creating / removing the transfer file, reporting ---------------------------
+/// content of the file found at this path at the moment it is opened
+pub uninterp spec fn fs_data(p: Seq<char>) -> Seq<u8>;
+pub broadcast axiom fn axiom_asref_pathbuf_ref(p: &std::path::PathBuf)
+    ensures #[trigger] asref_path_str::<&std::path::PathBuf>(p) == pathbuf_str(*p);
+/// ASSUMPTION: `File::open` starts at offset 0 of the file found at the path; `File::create` yields an empty file at offset 0
+pub assume_specification<P: core::convert::AsRef<std::path::Path>>[ std::fs::File::open::<P> ](p: P) -> (r: Result<std::fs::File, std::io::Error>)
+    ensures r is Ok ==> file_pos(r->Ok_0) == 0 && file_data(r->Ok_0) == fs_data(asref_path_str(p));
+pub assume_specification<P: core::convert::AsRef<std::path::Path>>[ std::fs::File::create::<P> ](p: P) -> (r: Result<std::fs::File, std::io::Error>)
+    ensures r is Ok ==> file_pos(r->Ok_0) == 0 && file_data(r->Ok_0) == Seq::<u8>::empty();
+pub assume_specification<P: core::convert::AsRef<std::path::Path>>[ std::fs::remove_file::<P> ](p: P) -> (r: Result<(), std::io::Error>);
+/// the path has a final component (`Path::file_name` is `Some`): false for `/`, the empty path and paths ending in `..`
+pub uninterp spec fn has_file_name(p: Seq<char>) -> bool;
+/// ASSUMPTION (lexical, about std::path; sampled by the bounded stand-in bounded_paths): a path without `..` that has a
+/// directory with a final component among its ancestors has a final component itself
+pub axiom fn axiom_confined_has_name(file: Seq<char>, dir: Seq<char>)
+    ensures path_confined(file, dir) && has_file_name(dir) ==> has_file_name(file);
+pub assume_specification[ std::path::Path::file_name ](p: &std::path::Path) -> (r: Option<&std::ffi::OsStr>)
+    ensures r is Some <==> has_file_name(path_str(p));
+/// ASSUMPTION (the model of paths as text): every path is valid Unicode
+pub assume_specification[ std::path::Path::to_str ](p: &std::path::Path) -> (r: Option<&str>)
+    ensures r is Some, r->Some_0@ == path_str(p);
+pub assume_specification<'a>[ std::ffi::OsStr::to_string_lossy ](s: &'a std::ffi::OsStr) -> (r: std::borrow::Cow<'a, str>);
+pub broadcast axiom fn axiom_display_cow_str(x: &std::borrow::Cow<'_, str>, f: &core::fmt::Formatter<'_>)
+    ensures #[trigger] x.fmt_req(f);
+pub broadcast axiom fn axiom_display_ref_cow_str(x: &&std::borrow::Cow<'_, str>, f: &core::fmt::Formatter<'_>)
+    ensures #[trigger] x.fmt_req(f);
+pub broadcast axiom fn axiom_display_ref_socketaddr(x: &&std::net::SocketAddr, f: &core::fmt::Formatter<'_>)
+    ensures #[trigger] x.fmt_req(f);
+/// ASSUMPTION: `thread::spawn` runs the closure once (its precondition must hold at the spawn); a panic inside stays inside the thread
+pub assume_specification<F: FnOnce() -> T + Send + 'static, T: Send + 'static>[ std::thread::spawn::<F, T> ](f: F) -> (r: std::thread::JoinHandle<T>)
+    requires f.requires(());
+/// ghost log of files removed by a worker thread
+pub tracked struct FsLog { pub ghost removed: Seq<Seq<char>> }
+
 pub assume_specification[ std::path::Path::to_path_buf ](p: &std::path::Path) -> (r: std::path::PathBuf)
     ensures pathbuf_str(r) == path_str(p);
 
@@ -927,6 +962,18 @@ pub tracked struct Trace {
     pub ghost reack: bool,
     /// receiver only: content of the file being written, as of the last write attempt
     pub ghost stored: Seq<u8>,
+}
+
+/// the trace of a transfer that has not started
+pub open spec fn trace_is_fresh(t: Trace) -> bool {
+    t.ev.len() == 0 && t.credit == 0 && t.last is None && t.fails == 0 && t.fresh && t.now_mark == 0 && t.snap_elems.len() == 0 && t.snap_ev_len == 0
+    && !t.handling && t.accepted.len() == 0 && !t.fin && !t.reack && t.stored == Seq::<u8>::empty()
+}
+pub proof fn trace_fresh() -> (tracked t: Trace)
+    ensures trace_is_fresh(t),
+{
+    Trace { ev: Seq::empty(), credit: 0, last: None, fails: 0, fresh: true, last_now: arbitrary(), now_mark: 0, snap_bn: 0, snap_elems: Seq::empty(),
+            snap_ev_len: 0, handling: false, accepted: Seq::empty(), fin: false, reack: false, stored: Seq::empty() }
 }
 
 /// n copies of x
